@@ -209,7 +209,11 @@ func (x *Exec) schemaCall(st *State, method string, recv Value, bufv Value, in s
 		st.assume(App("suffixof", SBool, u1, u0))
 		// re
 		st.assume(Implies(errNil, And(Eq(u0, Cat(W(mv1), u1)), canon(mv1), encok(mv1))))
-		st.assume(Implies(errNil, Le(Add(Len(u1), App("minwidth", SInt, tag)), Len(u0))))
+		st.assume(Implies(errNil, Le(Add(Len(u1), x.V.minWidthTerm(tag)), Len(u0))))
+		if st.written == nil {
+			st.written = map[string]bool{}
+		}
+		st.written[fmt.Sprintf("obj%d", o.ID)] = true
 		// rt: ghosts (v, r) given explicitly by the caller's contract, or matched against the head of the buffer
 		var gv, gr *Term
 		if x.fc != nil && in != nil {
